@@ -417,3 +417,58 @@ func fieldPathOf(v ssa.Value, ctx []callCtx) string {
 	}
 	return strings.Join(names, ".")
 }
+
+// batchWritePath: where BatchWriteItem dispatches one request to the single-item methods and where it hands the outcome to
+// its per-request error handler – in the method itself or in the package-local helpers its loops are factored into.
+type batchSite struct {
+	call ssa.CallInstruction
+	ctx  []callCtx
+}
+
+func (e *Engine) batchWritePath(role string) (dispatch, handler *batchSite) {
+	ms := e.clientMethods(role)
+	bw, put := ms["BatchWriteItem"], ms["PutItem"]
+	if bw == nil || put == nil {
+		return nil, nil
+	}
+	callsDirectly := func(g *ssa.Function, target *ssa.Function) bool {
+		hit := false
+		instrs(g, func(in ssa.Instruction) {
+			if c, ok := in.(ssa.CallInstruction); ok && c.Common().StaticCallee() == target {
+				hit = true
+			}
+		})
+		return hit
+	}
+	e.expandCalls(role, bw, func(c ssa.CallInstruction, ctx []callCtx) bool {
+		g := c.Common().StaticCallee()
+		if g == nil || e.fnRole(g) != role || g.Signature.Recv() != nil && g.Object() != nil && g.Object().Exported() {
+			return false
+		}
+		cp := append([]callCtx{}, ctx...)
+		if isBatchHandler(g) && handler == nil {
+			handler = &batchSite{c, cp}
+			return false
+		}
+		if !e.reach(g)[put] {
+			return false
+		}
+		if callsDirectly(g, put) {
+			if dispatch == nil {
+				dispatch = &batchSite{c, cp}
+			}
+			return false
+		}
+		return true // a helper on the batch path (per-table loop): look inside
+	})
+	return dispatch, handler
+}
+
+// chainBlocks: the block of the site and the blocks of the call sites that lead to it.
+func (s *batchSite) chainInstrs() []ssa.Instruction {
+	out := []ssa.Instruction{s.call.(ssa.Instruction)}
+	for i := len(s.ctx) - 1; i >= 0; i-- {
+		out = append(out, s.ctx[i].call.(ssa.Instruction))
+	}
+	return out
+}
